@@ -200,27 +200,31 @@ class BodyMixin:
             raise BodyParsingError()
         elif markup.error is not None:
             raise markup.error
-        listified = set()
+        def put(dct, listified, key, it):
+            if key in dct:
+                el = dct[key]
+                if key not in listified:
+                    el = dct[key] = [el]
+                    listified.add(key)
+                el.append(it)
+            else:
+                dct[key] = it
+
+        # a name may be used by a text part and by a file part,
+        # so repeated names are collected per container
+        post_listified, forms_listified, files_listified = set(), set(), set()
         for item in FieldStorage.iter_items(body, markup.markups, self.config.max_memfile_size):
+            key = item.name
             if item.filename:
                 it = FileUpload(
                     item.file, item.name,
                     item.filename, item.headers
                 )
-                dct = files
+                put(files, files_listified, key, it)
             else:
                 it = item.value
-                dct = forms
-            key = item.name
-
-            if key in post:
-                el = post[key]
-                if key not in listified:
-                    el = post[key] = dct[key] = [el]
-                    listified.add(key)
-                el.append(it)
-            else:
-                post[key] = dct[key] = it
+                put(forms, forms_listified, key, it)
+            put(post, post_listified, key, it)
         return post
 
     @cache_in('environ[ ombott.request.forms ]', read_only=True)
